@@ -192,25 +192,39 @@ def case(ctx, rng, idx, state):
             dj = os.path.join(tmp, "early")
             os.makedirs(dj, exist_ok=True)
             first, _, _, _, _, _ = run_segments(wb, system, grid, calcs, (n,), base_kw, tmp, "early", ["fs"], rng, ctx)
-            captured = {}
+            live = {}
             mon = monitors.RunMonitor()
-            mon.on_savedata.append(lambda resdict, i_iter: captured.__setitem__(i_iter, {k: np.array(resdict.results[k].data) for k in calcs}))
+            mon.before_process.append(lambda K_list, it: live.__setitem__("K", K_list))
+            w = dict(case=wit, restart_iteration=j)
+
+            def on_save_early(resdict, i_iter):
+                # continuing from an earlier iteration need not reproduce the same refinement (ties in the selection
+                # of cells are broken by list position), but the reported result must still be the weighted sum of the
+                # stored per-K results over the live list
+                tot = None
+                sc = {k: 0.0 for k in calcs}
+                for K in live["K"]:
+                    f = float(K.factor)
+                    if f == 0.0:
+                        continue
+                    r = K.get_result()
+                    for k in calcs:
+                        sc[k] += abs(f) * float(np.abs(r.results[k].data).max())
+                    tot = r * f if tot is None else tot + r * f
+                for k in calcs:
+                    ctx.close("restart_from_earlier_iteration:result!=sum_K_factor*stored_result", resdict.results[k].data, tot.results[k].data,
+                              rtol=1e-9, scale=sc[k], what=f"iteration {i_iter} key {k} restart_iteration={j}", witness=w)
+            mon.on_savedata.append(on_save_early)
             g = GlobOrder("reversed", rng)
             g.install()
             try:
                 with monitors.chdir(dj), mon:
-                    res = wb.run(system, grid, calcs, adpt_num_iter=n - j, restart=True, restart_iteration=j, parallel=False, fout_name="c11",
-                                 file_Klist_path=os.path.join(dj, "klist"), print_progress_step_time=1e9, **base_kw)
+                    wb.run(system, grid, calcs, adpt_num_iter=n - j, restart=True, restart_iteration=j, parallel=False, fout_name="c11",
+                           file_Klist_path=os.path.join(dj, "klist"), print_progress_step_time=1e9, **base_kw)
             finally:
                 g.remove()
-            w = dict(case=wit, restart_iteration=j)
-            for it in range(j + 1, n + 1):
-                if it not in captured:
-                    ctx.violation("restart_from_earlier_iteration_did_not_save_an_iteration", f"iteration {it} (restart_iteration={j})", w)
-                    continue
-                for k in calcs:
-                    ctx.close("restart_from_earlier_iteration!=uninterrupted_result", captured[it][k], ref[it][k], rtol=1e-9, scale=scale[k],
-                              what=f"iteration {it} key {k} restart_iteration={j}", witness=w)
+            for mech, msg, ww in mon.violations:
+                ctx.violation(mech, msg, dict(monitor_witness=ww, case=w))
             ctx.count("restarts_from_earlier_iteration")
             shutil.rmtree(dj, ignore_errors=True)
         ctx.count(f"storage_{storage}")
@@ -224,7 +238,7 @@ def case(ctx, rng, idx, state):
 if __name__ == "__main__":
     harness.main(
         PROP, "fault_enumeration", case, setup_fn=setup,
-        tiers=dict(quick=dict(cases=24, shards=8, time=240), thorough=dict(cases=320, shards=16, time=1500)),
+        tiers=dict(quick=dict(cases=64, shards=8, time=240), thorough=dict(cases=320, shards=16, time=1500)),
         rule="generic 2-WF systems with or without a declared point group, small grids, n=1..3 (quick) / 1..5 (thorough) refinement iterations; every "
              "composition of n into restart segments (exhaustive per case in the thorough tier, at most 8 sampled per case in the quick tier), both "
              "storage modes, directory listing order per restart from {sorted, reversed, file system, random}; distinct by (system parameters, "
